@@ -52,7 +52,7 @@ L1Step ==
   /\ pc = "l1walk"
   /\ cl1 # r1
   /\ cl1' = cl1 - 1
-  /\ k1' = L1(cl1 - 1)
+  /\ k1' = Derive(k1, cl1 - 1, -1)          \* the KDF is applied to the key in hand with the counter's context
   /\ calls' = calls + 1
   /\ UNCHANGED <<env, r1, r2, pc, cl2, k2, reseed>>
 
@@ -67,7 +67,7 @@ Reseed ==
   /\ pc = "reseed"
   /\ IF reseed
        THEN /\ cl2' = Top
-            /\ k2' = L2(cl1, Top)
+            /\ k2' = Derive(k1, cl1, Top)
             /\ calls' = calls + 1
        ELSE UNCHANGED <<cl2, k2, calls>>
   /\ pc' = "l2walk"
@@ -78,7 +78,7 @@ L2Step ==
   /\ pc = "l2walk"
   /\ cl2 # r2
   /\ cl2' = cl2 - 1
-  /\ k2' = L2(cl1, cl2 - 1)
+  /\ k2' = Derive(k2, cl1, cl2 - 1)
   /\ calls' = calls + 1
   /\ UNCHANGED <<env, r1, r2, pc, cl1, k1, reseed>>
 
@@ -97,7 +97,7 @@ Terminal == pc \in {"done", "reject"}
 (* ---- properties ---------------------------------------------------------- *)
 TypeOK ==
   /\ pc \in {"start", "adjust", "l1walk", "reseed", "l2walk", "done", "reject"}
-  /\ k1 \in Nodes \cup {None} /\ k2 \in Nodes \cup {None}
+  /\ k1 \in Nodes \cup {None, Garbage} /\ k2 \in Nodes \cup {None, Garbage}
   /\ calls \in 0 .. MaxKdfCalls
 
 (* the key returned is the key requested                                     *)
@@ -114,9 +114,10 @@ CountersInLattice == pc \notin {"start", "reject"} => (cl1 \in -1 .. Top /\ cl2 
 
 (* every key-changing step is one edge of the derivation graph, taken from a  *)
 (* key that is actually in hand                                              *)
+NeverGarbage == k1 # Garbage /\ k2 # Garbage
 StepsAreEdges ==
-  [][ /\ (k1' # k1 => (k1 # None /\ Parent(k1') = k1))
-      /\ (k2' # k2 => ((Parent(k2') = k2 /\ k2 # None) \/ (Parent(k2') = k1 /\ k1 # None)))
+  [][ /\ (k1' # k1 => (k1 # None /\ k1' # Garbage /\ Parent(k1') = k1))
+      /\ (k2' # k2 => (k2' # Garbage /\ ((Parent(k2') = k2 /\ k2 # None) \/ (Parent(k2') = k1 /\ k1 # None))))
       /\ ((k1' # k1 \/ k2' # k2) => calls' = calls + 1)
       /\ calls' \in {calls, calls + 1} ]_vars
 
